@@ -1,5 +1,7 @@
 import LcModel.Difficulty.Model
 import LcModel.Sampling.Model
+import LcModel.Quorum.Model
+import LcModel.Kv.Model
 
 /-- `lcmodel <layer>`: one operation per stdin line, one answer per stdout line. -/
 partial def loop (h : IO.FS.Stream) (out : IO.FS.Stream) (f : String → String) : IO Unit := do
@@ -9,10 +11,22 @@ partial def loop (h : IO.FS.Stream) (out : IO.FS.Stream) (f : String → String)
   out.flush
   loop h out f
 
+/-- stateful layers: the state is threaded through the lines -/
+partial def loopSt {σ : Type} (h : IO.FS.Stream) (out : IO.FS.Stream) (f : σ → String → σ × String)
+    (s : σ) : IO Unit := do
+  let line ← h.getLine
+  if line.isEmpty then return ()
+  let (s', ans) := f s line
+  out.putStrLn ans
+  out.flush
+  loopSt h out f s'
+
 def main (args : List String) : IO UInt32 := do
   let stdin ← IO.getStdin
   let stdout ← IO.getStdout
   match args with
   | ["difficulty"] => loop stdin stdout Difficulty.step; return 0
   | ["sampling"] => loop stdin stdout Sampling.step; return 0
+  | ["kv"] => loopSt stdin stdout Kv.step {}; return 0
+  | ["quorum"] => loopSt stdin stdout Quorum.step ⟨1, 1, [0], []⟩; return 0
   | _ => IO.eprintln "usage: lcmodel <layer>"; return 2
